@@ -205,13 +205,23 @@ func (s *Server[StateT]) handleOpenFile(ctx *Context[StateT]) error {
 type readFileResponseWriter struct {
 	dataLength int32
 	upstream   io.Writer
+	headerErr  error
 }
 
-func (w *readFileResponseWriter) WriteHeader(length int32) { w.dataLength = length }
+func (w *readFileResponseWriter) WriteHeader(length int32) {
+	w.dataLength = length
+
+	wr := proto.Writer{Writer: w.upstream}
+	w.headerErr = wr.SendReadFileResultLen(length)
+}
 
 func (w *readFileResponseWriter) Write(p []byte) (n int, err error) {
 	if w.dataLength <= 0 {
 		return 0, fmt.Errorf("WriteHeader wasn't called")
+	}
+
+	if w.headerErr != nil {
+		return 0, w.headerErr
 	}
 
 	return w.upstream.Write(p)
@@ -223,10 +233,16 @@ func (s *Server[StateT]) handleReadFile(ctx *Context[StateT]) error {
 		return fmt.Errorf("read read file params failed: %w", err)
 	}
 
-	return s.Handler.HandleReadFile(ctx, toRead, off, &readFileResponseWriter{
+	rw := &readFileResponseWriter{
 		dataLength: -1,
 		upstream:   ctx.wr.Writer,
-	})
+	}
+
+	if err = s.Handler.HandleReadFile(ctx, toRead, off, rw); err != nil {
+		return err
+	}
+
+	return rw.headerErr
 }
 
 func (s *Server[StateT]) handleReadFileCritical(ctx *Context[StateT]) error {
